@@ -67,16 +67,15 @@ type reuseCase struct {
 	Runs     []reuseRun `json:"runs"`
 }
 
-// reuseFuncs is what the generator draws from.  WriteCSVToFile is understood by
-// the check (a case can be replayed) but is NOT generated: see the domain
-// decisions in main_test.go.
-var reuseFuncs = []string{"sequences", "fasta", "fastq", "json"}
+// reuseFuncs is what the generator draws from (WriteCSVToFile joined the list once
+// its missing O_TRUNC was repaired in the repository: see known_findings.txt).
+var reuseFuncs = []string{"sequences", "fasta", "fastq", "json", "csv"}
 
 func (c reuseCase) key() string { return fmt.Sprintf("%+v", c) }
 
 func (c reuseCase) validate() error {
 	ok := false
-	for _, f := range append([]string{"csv"}, reuseFuncs...) {
+	for _, f := range reuseFuncs {
 		ok = ok || f == c.Func
 	}
 	if !ok {
